@@ -17,6 +17,7 @@ def run_kani_part(pid, rep):
     t0 = time.time()
     results, cmds = kani.run_harnesses(pid, specs)
     inconclusive = []
+    timed_out = {}
     failed = {}
     passed = 0
     nonvacuous = 0
@@ -39,6 +40,8 @@ def run_kani_part(pid, rep):
         else:
             entry["why"] = why
             inconclusive.append("%s: %s" % (name, why))
+            if r["status"] == "TIMEOUT":
+                timed_out.setdefault(spec["replay"], []).append((name, r))
         samples.append(entry)
     replayed = 0
     if failed:
@@ -68,6 +71,20 @@ def run_kani_part(pid, rep):
             record = dict(record, harnesses=[n for n, _ in items],
                           failed_checks=[r["failed"][:3] for _, r in items][:4])
             rep.candidate(roles, record)
+    # A harness that is decided in seconds on the unchanged tree and diverges under the current tree
+    # is not a verdict. As a fallback the public-API batteries of its family are run; a mismatch
+    # they show on the real build is reported (flagged as found by the battery, not by the solver).
+    for kind, items in timed_out.items():
+        if kind in failed:
+            continue
+        build_probe()
+        found = []
+        for part in kind.split("+"):
+            found += getattr(replays, "replay_" + part)(items)
+        for roles, record in found:
+            record = dict(record, harnesses_timed_out=[n for n, _ in items],
+                          note="found by the public-API replay battery after the solver run diverged (CBMC timeout); not a solver verdict")
+            rep.candidate(set(roles) | {"found-by-battery-after-harness-timeout"}, record)
     cov = {
         "obligations": len(specs), "discharged": passed,
         "evaluations": len(specs), "distinct_nontrivial": nonvacuous,
